@@ -135,12 +135,14 @@ def check_roundtrip(case):
 msg = st.fixed_dictionaries({"cmd": ident, "kwargs": kwargs_strategy(),
                              "payload": st.one_of(st.none(), st.none(), st.binary(min_size=0, max_size=40),
                                                   st.sampled_from([b"\n", b"a\nb?c=d\n", b"&bytes=2\nxx"]))})
-case_stream = st.fixed_dictionaries({
-    "msgs": st.lists(msg, min_size=1, max_size=8),
+# (a mapped tuple, not fixed_dictionaries: Hypothesis cannot replay fixed_dictionaries with four or more keys from a raw
+# byte buffer, which would make the coverage-guided phase reject every input)
+case_stream = st.tuples(
+    st.lists(msg, min_size=1, max_size=8),
     # cut points as fractions of the stream length; [] means whole delivery is compared with single bytes
-    "cuts": st.lists(st.integers(0, 10 ** 6), max_size=12),
-    "single_bytes": st.booleans(),
-})
+    st.lists(st.integers(0, 10 ** 6), max_size=12),
+    st.booleans(), st.booleans(),
+).map(lambda t: {"msgs": t[0], "cuts": t[1], "single_bytes": t[2], "debug_log": t[3]})
 
 
 def _deliver(stream, chunks, cls):
@@ -235,7 +237,56 @@ def check_stream(case):
     vio = []
     for label, cls in (("", AsyncioBcpClientSocket), (":mpf-client", _mpf_client_factory())):
         _compare(vio, label, cls, stream, chunks, expected)
+    if not vio:
+        _dispatch(vio, classes, expected, bool(case.get("debug_log")))
     return Result(vio or None, classes, inside and len(stream) > 0)
+
+
+_IFACE = []
+
+
+def _dispatch(vio, classes, expected, debug):
+    """The reassembled messages are handed to MPF's BcpInterface.process_bcp_message, with and without its debug logging:
+    every registered command handler must receive the same parameters (payload included), in the order sent."""
+    _mpf_client_factory()
+    rig = _RIG[0]
+    if not _IFACE:
+        from mpf.core.bcp.bcp_interface import BcpInterface
+        rig.machine.config["bcp"] = {"connections": {}, "servers": {}, "debug": False}
+        _IFACE.append(BcpInterface(rig.machine))
+    iface = _IFACE[0]
+    got = []
+    saved = dict(iface.bcp_receive_commands)
+
+    def mk(cmd):
+        async def handler(client, **kwargs):
+            del client
+            got.append((cmd, kwargs))
+        return handler
+    try:
+        for cmd, _ in expected:
+            iface.bcp_receive_commands[cmd] = mk(cmd)
+        iface._debug_to_console = debug     # pylint: disable=protected-access
+        if debug:
+            classes.append("dispatch with debug logging")
+
+        async def run():
+            for cmd, kw in expected:
+                await iface.process_bcp_message(cmd, dict(kw), None)
+        rig.loop.run_until_complete(run())
+    except Exception as e:   # pylint: disable=broad-except
+        vio.append(violation("dispatch-raises:" + type(e).__name__, "process_bcp_message raised %r for %r" % (e, expected)))
+        return
+    finally:
+        iface._debug_to_console = False     # pylint: disable=protected-access
+        iface.bcp_receive_commands.clear()
+        iface.bcp_receive_commands.update(saved)
+
+    def norm(lst):
+        return [(c, sorted((k, repr(v)) for k, v in kw.items())) for c, kw in lst]
+    if norm(got) != norm(expected):
+        vio.append(violation("dispatch-differs" + (":debug-logging" if debug else ""), "handlers received %r, the messages sent "
+                             "were %r" % (got, expected)))
 
 
 _RIG = []
